@@ -140,7 +140,7 @@ PROPS = {
         vfiles=["Props/C14"],
         technique="Coq proof by induction over the device's answer list for each emission loop (block! retry, write_all, displaced report), against independently stated expectations; correspondence on scripted back-pressure, the encoded frames being taken from the implementation's own fragmentation and codecs",
         level_text="Theorems C14_usart / C14_usart_blocks (each byte exactly once, in order, under any would-block pattern; blocks rather than returns early), C14_can / C14_can_props (frames handed over once each, "
-                   "in order, up to the first displaced report, which is returned), C14_serial (prefix property, Ok only if everything written and flushed, short writes and interruptions absorbed).",
+                   "in order, up to the first displaced report, which is returned), C14_serial (prefix property, Ok only if everything written and flushed, short writes and interruptions absorbed). C14_checker_accepts_model_can/_usart/_serial: the extracted checker provably accepts the model's observations.",
         level_note=NOTE_COMMON + " The emission loops are verified relative to fragmentation (C10) and the frame codecs (C08/C09): encoded frames are an input.",
         streams=[dict(SND, view="view_C14", ok="ok_C14")],
         rule=RULE_SND,
